@@ -170,6 +170,20 @@ func (e *Engine) RunJob(bin string, scs []Scenario, timeout time.Duration) ([]Re
 	if r.Err != nil && !strings.Contains(fmt.Sprint(r.Err), "exit status") {
 		return results, build.Toolf("simulation process: %v\n%s", r.Err, tail(stderr, 4000))
 	}
+	// A process that died (fatal error, unrecovered panic in a goroutine of the code under test) takes the
+	// rest of its batch with it: only the first scenario without a result was running; the ones behind it are
+	// run again in a fresh process.
+	for i := range results {
+		if results[i].Missing {
+			results[i].Stderr = tail(stderr, 4000)
+			if i+1 < len(scs) {
+				rest, err := e.RunJob(bin, scs[i+1:], timeout)
+				copy(results[i+1:], rest)
+				return results, err
+			}
+			break
+		}
+	}
 	for i := range results {
 		if results[i].Missing {
 			results[i].Stderr = tail(stderr, 4000)
